@@ -48,15 +48,60 @@ def _run_snippet(unit_file, uid, snippet, seed):
         env = dict(os.environ, CARGO_NET_OFFLINE='true', CARGO_TARGET_DIR=os.path.join(VERIF, '.cache', 'replay-target'))
         p = subprocess.run(['cargo', 'test', '--offline', '-p', crate, '--lib', 'vx_replay_%s::replay' % uid, '--', '--nocapture'],
                            cwd=scratch, env=env, capture_output=True, text=True, timeout=1800)
-        out = (p.stdout + '\n' + p.stderr)[-6000:]
-        if 'error[' in out or 'error: could not compile' in out:
-            return None, out, mod
-        found = p.returncode != 0 and 'panicked' in out
+        full = p.stdout + '\n' + p.stderr
+        if 'error[' in full or 'error: could not compile' in full:
+            return None, full[-6000:], mod
+        found = p.returncode != 0 and 'panicked' in full
+        ls = full.split('\n')
+        pan = []
+        for k, l in enumerate(ls):
+            if 'panicked at' in l:
+                pan.extend(ls[k:k + 4])
+        out = '\n'.join(pan) + '\n' + '\n'.join(l for l in p.stdout.split('\n') if l.startswith('test ') or 'test result' in l)
         return found, out, mod
     except Exception as e:  # noqa
         return None, 'replay harness error: %r' % (e,), ''
     finally:
         shutil.rmtree(scratch, ignore_errors=True)
+
+
+def crosscheck_oracles(runs):
+    """Thorough tier: run every replay oracle against the unchanged real code; all must pass.
+    Returns list of dicts(unit, status, note).  A failing oracle on a tree whose proof passes is a framework error."""
+    seed = int(os.environ.get('VERIF_SEED', '0') or 0)
+    by_file = {}
+    for r in runs:
+        for uid, u in r.units.items():
+            if u.get('replay'):
+                by_file.setdefault(u['file'], []).append((re.sub(r'\W+', '_', uid), u['replay']))
+    results = []
+    if not by_file:
+        return results
+    scratch = tempfile.mkdtemp(prefix='vx-oracle-', dir=os.environ.get('VERIF_SCRATCH', '/var/tmp'))
+    try:
+        subprocess.run(['rsync', '-a', '--exclude', 'target', '--exclude', '.git', REPO + '/', scratch + '/'], check=True)
+        crates = set()
+        for f, items in by_file.items():
+            crates.add(CRATES[f.split('/')[0]])
+            with open(os.path.join(scratch, f), 'a') as fh:
+                for uid, snippet in items:
+                    fh.write('\n#[cfg(test)]\nmod vx_replay_%s {\n    #![allow(unused_imports)]\n    use super::*;\n    const VX_SEED: u64 = %d;\n%s\n    #[test]\n    fn replay() {\n%s\n    }\n}\n'
+                             % (uid, seed, HELPERS, '\n'.join('        ' + l for l in snippet)))
+        env = dict(os.environ, CARGO_NET_OFFLINE='true', CARGO_TARGET_DIR=os.path.join(VERIF, '.cache', 'replay-target'))
+        for crate in sorted(crates):
+            p = subprocess.run(['cargo', 'test', '--offline', '-p', crate, '--lib', 'vx_replay_'], cwd=scratch, env=env,
+                               capture_output=True, text=True, timeout=3000)
+            full = p.stdout + '\n' + p.stderr
+            if 'error[' in full or 'could not compile' in full:
+                results.append(dict(unit=crate, status='harness-error', note=full[-1500:]))
+                continue
+            for m in re.finditer(r'test (\S*)vx_replay_(\w+)::replay \.\.\. (\w+)', p.stdout):
+                results.append(dict(unit=m.group(2), status=m.group(3), note=''))
+    except Exception as e:  # noqa
+        results.append(dict(unit='*', status='harness-error', note=repr(e)))
+    finally:
+        shutil.rmtree(scratch, ignore_errors=True)
+    return results
 
 
 def make_replay(pid, n, o, runs):
